@@ -1231,6 +1231,7 @@ static void run(const std::vector<std::string> &tk)
     else if (c == "audit") cmd_audit(tk);
     else if (c == "satpre") cmd_satpre(tk);
     else if (c == "quiet") QUIET = (tk.size() > 1 && tk[1] == "1");
+    else if (c == "auditmode") { /* directive for the checker only */ }
     else if (c == "destroyforest") cmd_destroyforest(tk);
     else if (c == "destroydomain") cmd_destroydomain(tk);
     else if (c == "attached") cmd_attached(tk);
